@@ -323,6 +323,46 @@ MUTANTS += [
 
 ALLP = ["C%02d" % i for i in range(1, 19)]
 
+# ---- mutants for the rules added after the seeding rounds (previously covered only by replayed seeds)
+MUTANTS += [
+    M("address-data-from-file-object", {"C12": ["A5"]}, CR,
+      [('el.text = b"".join(await resource.get_body()).decode("utf-8")',
+        'el.text = b"".join((await resource.get_file()).normalized()).decode("utf-8")')],
+      "address-data serialises the re-normalised file object instead of the stored body"),
+    M("sync-skips-deletions", {"C07": ["T6"]}, W,
+      [("                yield (name, old_resource, new_resource)\n        except InvalidCTag as exc:",
+        "                if new_resource is None:\n                    continue\n                yield (name, old_resource, new_resource)\n        except InvalidCTag as exc:")],
+      "iter_differences_since drops removed members"),
+    M("scan-shortcut-by-name", {"C06": ["U6"]}, G,
+      [("            if name in self._fname_to_uid and self._fname_to_uid[name][0] == etag:\n                continue\n            blob = self.repo.object_store[sha]",
+        "            if name in self._fname_to_uid:\n                continue\n            blob = self.repo.object_store[sha]")],
+      "git _scan_uids trusts the cached uid of a name whatever its etag"),
+    M("floating-as-utc", {"C11": ["Z1"]}, IC,
+      [("        dt = dt.replace(tzinfo=default_timezone)\n    assert dt.tzinfo\n    return dt",
+        "        dt = dt.replace(tzinfo=timezone.utc)\n    assert dt.tzinfo\n    return dt")],
+      "floating times are pinned to UTC instead of the query's time zone"),
+    M("index-first-value-only", {"C10": ["X8"]}, IC,
+      [("                    if p is not None:\n                        yield p.to_ical()\n            else:\n                raise AssertionError",
+        "                    if p is not None:\n                        yield p.to_ical()\n                        break\n            else:\n                raise AssertionError")],
+      "_get_index stops after the first component that has the property"),
+    M("timerange-one-key-group", {"C10": ["X9"]}, IC,
+      [('        return [["P=" + prop] for prop in props]\n\n\nclass TextMatcher',
+        '        return [["P=" + prop for prop in props]]\n\n\nclass TextMatcher')],
+      "time-range matcher asks for its properties as one alternative group"),
+    M("bare-delete-compares-str", {"C09": ["K6"]}, G,
+      [('        if etag is not None and current_sha != etag.encode("ascii"):\n            raise InvalidETag(name, etag, current_sha.decode("ascii"))\n        del tree[name_enc]',
+        '        if etag is not None and current_sha != etag:\n            raise InvalidETag(name, etag, current_sha.decode("ascii"))\n        del tree[name_enc]')],
+      "bare delete compares the tree's bytes id with the str etag"),
+    M("color-setter-strips", {"C15": ["M7"]}, W,
+      [("    def set_calendar_color(self, color):\n        self.store.set_color(color)\n\n    def get_supported_calendar_components(self):\n        return [\"VEVENT\", \"VTODO\", \"VJOURNAL\", \"VFREEBUSY\"]",
+        "    def set_calendar_color(self, color):\n        self.store.set_color(color.strip().upper())\n\n    def get_supported_calendar_components(self):\n        return [\"VEVENT\", \"VTODO\", \"VJOURNAL\", \"VFREEBUSY\"]")],
+      "calendar-color setter normalises the value on the way down"),
+    M("standalone-forgets-principal", {"C18": ["S8"]}, W,
+      [("    backend = XandikosBackend(directory)\n    backend._mark_as_principal(current_user_principal)\n\n    if autocreate or defaults:",
+        "    backend = XandikosBackend(directory)\n\n    if autocreate or defaults:")],
+      "run_simple_server no longer registers the principal path"),
+]
+
 BENIGN: List[M] = [
     M("b-rename-local", {p: [] for p in ("C01", "C02", "C03", "C05", "C06", "C14")}, D,
       [("        if r is not None:\n            current_etag = await r.get_etag()\n        else:\n            current_etag = None\n        if_match = request.headers.get(\"If-Match\", None)\n        if if_match is not None and not etag_matches(if_match, current_etag):\n            return Response(status=\"412 Precondition Failed\")\n        if_none_match = request.headers.get(\"If-None-Match\", None)\n        if if_none_match and etag_matches(if_none_match, current_etag):\n            return Response(status=\"412 Precondition Failed\")\n        if r is not None:\n            # Item already exists; update it\n            try:\n                new_etag = await r.set_body(new_contents, current_etag)",
@@ -426,6 +466,47 @@ def seeded_changes() -> List[Tuple[str, str, Dict[str, List[str]]]]:
     return out
 
 
+def benign_changes() -> List[Tuple[str, str]]:
+    """(id, patch path) for every reviewed behaviour-preserving refactoring under /verif/benign."""
+    import json
+    from .core import VERIF
+    out = []
+    base = os.path.join(VERIF, "benign")
+    if not os.path.isdir(base):
+        return out
+    for d in sorted(os.listdir(base)):
+        mp, pp = os.path.join(base, d, "meta.json"), os.path.join(base, d, "patch.diff")
+        if not (os.path.exists(mp) and os.path.exists(pp)):
+            continue
+        try:
+            meta = json.load(open(mp))
+        except ValueError:
+            continue
+        if meta.get("suite_ok") and meta.get("reviewed_benign", True):
+            out.append((d, pp))
+    return out
+
+
+def _work_benign(args) -> dict:
+    bid, patch, prop, repo, scratch, base_keys = args
+    import subprocess
+    from . import core
+    root = os.path.join(scratch, "benign-%s-%s" % (bid, prop))
+    os.makedirs(root)
+    try:
+        _copy_tree(repo, root)
+        r = subprocess.run(["git", "apply", "--whitespace=nowarn", patch], cwd=root, capture_output=True, text=True)
+        if r.returncode != 0:
+            return {"id": "refactor:" + bid, "prop": prop, "status": "skipped", "benign": True, "desc": "refactoring (patch does not apply to this tree)"}
+        run = core.run_property(prop, root, "quick")
+        new = [o for o in run.violated if o.key not in base_keys]
+        ok = not new and not run.errors
+        return {"id": "refactor:" + bid, "prop": prop, "status": "silent" if ok else "noisy", "benign": True,
+                "desc": "behaviour-preserving refactoring " + bid, "detail": [o.key for o in new][:3] + run.errors[:2]}
+    finally:
+        shutil.rmtree(root, ignore_errors=True)
+
+
 def _work_seed(args) -> dict:
     sid, patch, prop, rules, repo, scratch, base_keys = args
     import subprocess
@@ -481,15 +562,16 @@ def run(prop: str, repo: str, jobs: int = 4, seed: int = 0) -> dict:
     try:
         args = [(mid, p, os.path.abspath(repo), scratch, base_keys) for mid, p in tasks]
         sargs = [(sid, patch, prop, exp[prop], os.path.abspath(repo), scratch, base_keys) for sid, patch, exp in seeded_changes() if prop in exp]
-        if jobs <= 1 or len(args) + len(sargs) <= 1:
-            results = [_work(a) for a in args] + [_work_seed(a) for a in sargs]
+        bargs = [(bid, patch, prop, os.path.abspath(repo), scratch, base_keys) for bid, patch in benign_changes()]
+        if jobs <= 1 or len(args) + len(sargs) + len(bargs) <= 1:
+            results = [_work(a) for a in args] + [_work_seed(a) for a in sargs] + [_work_benign(a) for a in bargs]
         else:
-            with ProcessPoolExecutor(max_workers=min(jobs, len(args) + len(sargs))) as ex:
-                results = list(ex.map(_work, args)) + list(ex.map(_work_seed, sargs))
+            with ProcessPoolExecutor(max_workers=min(jobs, len(args) + len(sargs) + len(bargs))) as ex:
+                results = list(ex.map(_work, args)) + list(ex.map(_work_seed, sargs)) + list(ex.map(_work_benign, bargs))
     finally:
         shutil.rmtree(scratch, ignore_errors=True)
-    mut = [r for r in results if r["status"] in ("caught", "missed", "skipped") and not any(b.mid == r["id"] for b in BENIGN)]
-    ben = [r for r in results if any(b.mid == r["id"] for b in BENIGN)]
+    ben = [r for r in results if r.get("benign") or any(b.mid == r["id"] for b in BENIGN)]
+    mut = [r for r in results if r["status"] in ("caught", "missed", "skipped") and r not in ben]
     broken = ["mutant %s (%s) was not reported by rule(s) %s; rules that fired: %s %s"
               % (r["id"], r["desc"], r.get("expect") or next(m for m in MUTANTS if m.mid == r["id"]).expect[prop], r.get("rules"), r.get("errors") or "")
               for r in mut if r["status"] == "missed"]
@@ -499,6 +581,7 @@ def run(prop: str, repo: str, jobs: int = 4, seed: int = 0) -> dict:
         "seeded_changes_replayed": len([r for r in mut if r["id"].startswith("seed:")]),
         "skipped": len([r for r in mut + ben if r["status"] == "skipped"]),
         "benign": len(ben), "benign_silent": len([r for r in ben if r["status"] == "silent"]),
+        "refactorings_replayed": len([r for r in ben if r["id"].startswith("refactor:") and r["status"] != "skipped"]),
         "broken": broken,
         "results": [{k: v for k, v in r.items() if k in ("id", "status", "first", "desc")} for r in results],
         "note": "mutants are applied to a scratch copy of %s outside /repo and /verif and removed; an edit whose anchor text is absent is skipped" % repo,
